@@ -495,8 +495,11 @@ pub fn run_call(c: &Call) -> String {
             res(guard(|| serde_saphyr::from_reader::<_, Cfg>(rd)), |v| format!("{v:?}"))
         }
         Call::ReaderRc { second } => {
-            let text: &[u8] = if *second { b"a: &s beta\nb: *s\nc: &t z2\n" } else { b"a: &s alpha\nb: *s\nc: z\n" };
-            let rd = SimReader::new(text, ReaderScript::fixed(3));
+            // (filler entries between the anchor and its alias: the scanner reads ahead, and only reads are
+            // hand-over points; with the filler the other thread is certain to run between the two)
+            let filler: String = (0..24).map(|i| format!("z{i}: {i}\n")).collect();
+            let text = if *second { format!("a: &s beta\n{filler}b: *s\nc: &t z2\n") } else { format!("a: &s alpha\n{filler}b: *s\nc: z\n") };
+            let rd = SimReader::new(text.as_bytes(), ReaderScript::fixed(3));
             res(guard(|| serde_saphyr::from_reader::<_, RcDoc>(rd)), |d| {
                 format!("a={} b={} c={} ab={}", d.a.0, d.b.0, d.c.0, std::rc::Rc::ptr_eq(&d.a.0, &d.b.0))
             })
@@ -534,8 +537,9 @@ pub fn run_call(c: &Call) -> String {
             }
         }
         Call::ReaderArc { second } => {
-            let text: &[u8] = if *second { b"a: &s beta\nb: *s\n" } else { b"a: &s alpha\nb: *s\n" };
-            let rd = SimReader::new(text, ReaderScript::fixed(3));
+            let filler: String = (0..24).map(|i| format!("z{i}: {i}\n")).collect();
+            let text = if *second { format!("a: &s beta\n{filler}b: *s\n") } else { format!("a: &s alpha\n{filler}b: *s\n") };
+            let rd = SimReader::new(text.as_bytes(), ReaderScript::fixed(3));
             res(guard(|| serde_saphyr::from_reader::<_, ArcDoc>(rd)), |d| {
                 format!("a={} b={} ab={}", d.a.0, d.b.0, std::sync::Arc::ptr_eq(&d.a.0, &d.b.0))
             })
